@@ -5,6 +5,7 @@ import argparse
 import importlib
 import json
 import os
+import signal
 import sys
 import traceback
 
@@ -31,6 +32,13 @@ def main(argv=None):
     print(f'ANALYSIS-ERROR: no rules for property {pid}')
     return 2
   chk = report.Check(pid, tier, seed)
+  if tier == 'quick' and hasattr(signal, 'SIGALRM'):
+    # a check that does not terminate is broken, not a verdict: give up loudly instead of hanging the caller
+    def _too_slow(signum, frame):
+      print(f'ANALYSIS-ERROR: property={pid} the analysis did not finish within its time budget')
+      os._exit(2)
+    signal.signal(signal.SIGALRM, _too_slow)
+    signal.alarm(int(os.environ.get('VERIF_QUICK_BUDGET_S', '300')))
   try:
     prog = model.program()
     meta = mod.run(chk, prog, tier)
